@@ -191,6 +191,23 @@ def run_item(item):
         for h in hs:
             for s in seeds:
                 check_history(acc, kind, h, s, tmp, flagged)
+        # a different seed yields different draws: pairwise, not only s vs s+1
+        # torch's CPU generator keeps 32 seed bits: larger seeds are outside what the library controls
+        many = [0, 1, 2, 3, 4, 1234, 1236, 2 ** 31, 2 ** 32 - 1] + ([item["vseed"] % 2 ** 32] if item["vseed"] % 2 ** 32 not in (0, 1, 2, 3, 4, 1234, 1236) else [])
+        runs = {}
+        for s_ in many:
+            try:
+                runs[s_] = run(kind, (first,), s_, 0, tmp)[0]
+            except LibRaised as e:
+                acc.viol(f"repro:raised:{e.kind}:{e.site}", dict(kind=kind, history=[first], seed=s_), observed=e.tb)
+                break
+            acc.transitions += 1
+        ks = list(runs)
+        for i in range(len(ks)):
+            for j in range(i + 1, len(ks)):
+                if runs[ks[i]] == runs[ks[j]] and "repro:two-different-seeds-give-identical-runs" not in flagged:
+                    flagged.add("repro:two-different-seeds-give-identical-runs")
+                    acc.viol("repro:two-different-seeds-give-identical-runs", dict(kind=kind, history=[first], seed=ks[i], other_seed=ks[j]))
         third = OPS if tier == "quick" else OPS
         for b in OPS:
             for c in third:
@@ -211,6 +228,13 @@ def replay(case):
     acc = Acc()
     tmp = tempfile.mkdtemp(prefix="c14_", dir=os.path.join(HOME, ".work"))
     try:
+        if "other_seed" in case:
+            a = run(case["kind"], tuple(case["history"]), case["seed"], 0, tmp)[0]
+            b = run(case["kind"], tuple(case["history"]), case["other_seed"], 0, tmp)[0]
+            acc.ev(1)
+            if a == b:
+                acc.viol("repro:two-different-seeds-give-identical-runs", case)
+            return acc
         check_history(acc, case["kind"], tuple(case["history"]), case["seed"], tmp, set())
     finally:
         shutil.rmtree(tmp, ignore_errors=True)
